@@ -1188,6 +1188,9 @@ func TestC15(t *testing.T) {
 	vh.Drive(t, vh.Spec[SpzCase]{Name: "spz-decode", Quick: 80000, Thorough: 2400000, Gen: genSpz, Run: runSpz})
 	vh.Drive(t, vh.Spec[PlyCase]{Name: "splat-ply", Quick: 100000, Thorough: 3000000, Gen: genPlyCase, Run: runPly})
 	vh.Drive(t, vh.Spec[LargeCase]{Name: "large", Quick: 200, Thorough: 6000, Gen: genLarge, Run: runLarge})
+	vh.Drive(t, vh.Spec[vh.Conc[SplatCase]]{Name: "concurrent-splat", Quick: 2000, Thorough: 60000, Gen: vh.GenConc(genSplatCase), Run: vh.RunConc(runSplat), Repeat: 20})
+	vh.Drive(t, vh.Spec[vh.Conc[SpzCase]]{Name: "concurrent-spz", Quick: 2000, Thorough: 60000, Gen: vh.GenConc(genSpz), Run: vh.RunConc(runSpz), Repeat: 20})
+	vh.Drive(t, vh.Spec[vh.Conc[PlyCase]]{Name: "concurrent-splat-ply", Quick: 2000, Thorough: 60000, Gen: vh.GenConc(genPlyCase), Run: vh.RunConc(runPly), Repeat: 20})
 	vh.Enumerate(t, vh.Spec[SpzCase]{Name: "spz-half-grid", Run: runSpz,
 		Key: func(c SpzCase) string { return fmt.Sprintf("half-block-%d", binary.LittleEndian.Uint16(c.Pos)) },
 		Sample: func(c SpzCase) any {
